@@ -8,7 +8,8 @@ from .vtypes import parse_type
 
 class Contract:
     def __init__(self, qual, types=None, returns=None, requires=(), ensures=(), modifies=(), loops=None,
-                 inline=False, props=(), note="", pure=False, bounded=None, may_raise=False, fixed=None):
+                 inline=False, props=(), note="", pure=False, bounded=None, may_raise=False, fixed=None, result_is=None):
+        self.result_is = result_is
         self.fixed = dict(fixed or {})
         self.qual = qual
         self.types = {k: parse_type(v) for k, v in (types or {}).items()}
